@@ -266,6 +266,27 @@ def r3_literals(run, F):
            "string bytes are escaped with ascii::escape_default (\\t \\r \\n \\' \\\" \\\\ \\xHH), all accepted inside string literals: %s" % fmt_of("StringLiteral"))
 
 
+def r3b_string_text_untouched(run, F):
+    """Between `ascii::escape_default` and the quotes nothing rewrites the text: an edit of the *escaped* text cannot tell an escape
+    from the same characters standing for themselves (`\\\\x00` is an escaped backslash followed by `x00`; replacing `\\x00` by `\\0`
+    inside it changes the bytes of the string).  The calls of the StringLiteral arm are the reviewed, text-preserving ones."""
+    e = F.body("<alpha::common::Expression as alpha::rebuilder::Rebuildable>::rebuild")
+    m = [x for x in hirq.matches(e["hir"]) if hirq.n_alts(x) > 12][0]
+    sarm = hirq.arm_for(m, "Expression::StringLiteral")
+    run.require(len(sarm) == 1, "StringLiteral arm of Expression::rebuild not found")
+    preserving = ("Iterator::collect", "Iterator::flat_map", "Iterator::map", "Iterator::flatten", "slice::iter", "IntoIterator::into_iter", "ascii::escape_default",
+                  "ToString>::to_string", "String::from_utf8_lossy", "String::from_utf8", "Cow<'_, B>::into_owned", "borrow::ToOwned>::to_owned", "Result::unwrap", "Result::expect",
+                  "v1::Ok", "hint::must_use", "fmt::format", "Argument::new_display", "Arguments::new", "Arguments::new_v1", "String::from", "From>::from", "Into<U>>::into",
+                  "String::as_str", "Deref>::deref", "String::push", "String::push_str", "String::new", "String::with_capacity", "Extend<char>>::extend", "char::from")
+    other = []
+    for c in hirq.calls(sarm[0]["body"]):
+        name = hirq.callee(c) or hirq.callee_decl(c) or c.get("name") or "?"
+        if not name.endswith(preserving):
+            other.append((name, c))
+    run.ob("R3-LITERAL-SPELLING", "StringLiteral text untouched", not other, F.where(e, other[0][1]) if other else F.where(e, sarm[0]),
+           "the escaped text of a string literal is printed as escape_default produced it; not reviewed as text-preserving: %s" % sorted(set(n.split("::")[-1] for n, _ in other)))
+
+
 def r4_indentation(run, F):
     b = F.body(RB + "Indentation::increased")
     adds = [n for n in walk(b["hir"]) if n.get("k") == "Binary" and n.get("op") == "Add" and n["rhs"].get("v") == 1]
@@ -387,6 +408,7 @@ def check(run):
     r1_spellings(run, F)
     r2_completeness(run, F)
     r3_literals(run, F)
+    r3b_string_text_untouched(run, F)
     r4_indentation(run, F)
     r5_parse_only_annotations(run, F)
     if run.tier == "thorough":
